@@ -23,6 +23,17 @@ var reservedHydraideTagNames = map[string]struct{}{
 	tagUpdatedBy: {},
 }
 
+// hydraideTagHead returns the name part of a `hydraide:"name,option…"` tag: everything before the first comma.
+// The conversion loops compare this head with the reserved names, exactly like inspectCatalogModel does,
+// so a body field whose name merely contains a reserved word (keywords, values, createdAtX) is never
+// mistaken for the key, the value or a metadata slot.
+func hydraideTagHead(tag string) string {
+	if i := strings.IndexByte(tag, ','); i >= 0 {
+		return tag[:i]
+	}
+	return tag
+}
+
 // mapBodyField describes one field that participates in the msgpack-map body
 // of a map-body Catalog. Name is the wire key (the `hydraide:"FieldName"`
 // tag value), Index is the struct field index, OmitEmpty mirrors the tag.
